@@ -10,7 +10,7 @@ Question answered: does ANY final set exist that
   * satisfies every dependency clause (all five classes) of every merged member AND of every kept installed
     member that the plan leans on (transitively: any kept installed package matching an atom of an active
     member is active too - the resolver verifies the dependencies of installed packages it uses),
-  * is hit by no top-level blocker of an active member (a package never blocks itself),
+  * is hit by no top-level blocker of an active member (strict: not even the member itself),
   * is build-orderable: iteratively, a merged member becomes available once each of its DEPEND/BDEPEND
     clauses has an alternative whose atoms are all matched by kept installed members or already available
     merged members (RDEPEND/IDEPEND/PDEPEND only need membership).
@@ -114,11 +114,13 @@ class Search:
             for cls in (ref.DEP_CLASSES if a["origin"] == "src" else INSTALLED_CLASSES):
                 for c in a["spec"]["deps"].get(cls, ()):
                     if "any" not in c and c.get("blk"):
-                        hit = [m for m in ms if ref.atom_matches(c, m) and m is not a]
+                        # strict: a package whose blocker matches the package itself is unusable here (PMS lets a
+                        # package ignore its own blocker, pkgcore's slot table does not - nothing is claimed then)
+                        hit = [m for m in ms if ref.atom_matches(c, m)]
                         if hit:
                             fix = []
                             for m in hit:
-                                if m["origin"] == "vdb":
+                                if m["origin"] == "vdb" and m is not a:
                                     # replace the blocked installed package by something the blocker spares
                                     fix += [j for j in self.replacers(M, m) if not ref.atom_matches(c, self.src[j])]
                             if a["origin"] == "vdb":
